@@ -1,3 +1,41 @@
-From VZ Require Import Base.Prelude Model.Service.
-Theorem C06_placeholder : True. Proof. exact I. Qed.
-Print Assumptions C06_placeholder.
+(* C06 — a failing algorithm is reported and never wedges the study.  Statements only. *)
+From VZ Require Import Base.Prelude Model.Service Proofs.ServiceP.
+
+(* the continuation taken when Pythia fails / under-delivers / its metadata cannot be stored is finish_op: whenever the
+   operation record exists, the RPC ends with a DONE operation carrying the error flag, and exactly that is stored *)
+Theorem C06_failure_is_reported_and_stored : forall s k n o err out po tr,
+  get_node k (nodes s) = Some n -> existsb (op_is (o_client o) (o_num o)) (n_ops n) = true ->
+  let o' := mkOp (o_client o) (o_num o) true err out in
+  exists s' tr', run (finish_op k o err out) s po tr = (s', Done (RpOp o'), tr') /\
+    (exists n', get_node k (nodes s') = Some n' /\ find (op_is (o_client o) (o_num o)) (n_ops n') = Some o' /\
+                n_trials n' = n_trials n /\ n_study n' = n_study n).
+Proof. exact finish_op_done. Qed.
+Print Assumptions C06_failure_is_reported_and_stored.
+
+(* the only way a worker is answered without reaching the algorithm is an operation stored with done = false *)
+Theorem C06_wedge_needs_unfinished_operation : forall s k n c count po o rest,
+  get_node k (nodes s) = Some n -> immutable (n_study n) = false ->
+  filter (fun o => negb (o_done o)) (filter (fun o => N.eqb (o_client o) c) (n_ops n)) = o :: rest ->
+  step s (SuggestTrials k c count, po) = (s, Done (RpOp o)).
+Proof. exact unfinished_returned. Qed.
+Print Assumptions C06_wedge_needs_unfinished_operation.
+
+(* a concrete failing-algorithm history: the failure is reported, nothing is left unfinished, the next suggest by the
+   same worker reaches the algorithm again and hands out a trial (evaluated by the kernel) *)
+Theorem C06_failing_history_not_wedged :
+  let ops := [(CreateStudy 1 1 false (mkS SS_ACTIVE [(1%N, true)] []), PFail EOther);
+              (SuggestTrials (1, 1)%N 1 2, PFail ERuntime);
+              (SuggestTrials (1, 1)%N 1 2, PDeliver [7%N] [] []);
+              (SuggestTrials (1, 1)%N 1 2, PDeliver [8%N; 9%N; 10%N] [] [])] in
+  match run_outcomes ops init_state with
+  | [_; Done (RpOp o1); Done (RpOp o2); Done (RpOp o3)] =>
+    o_done o1 && o_err o1 && o_done o2 && negb (o_err o2) && Nat.eqb (length (o_trials o2)) 1 &&
+    o_done o3 && Nat.eqb (length (o_trials o3)) 2
+  | _ => false
+  end = true.
+Proof. vm_compute. reflexivity. Qed.
+Print Assumptions C06_failing_history_not_wedged.
+
+(* FULL statement, decided by correspondence + monitor, not yet proved for all histories: *)
+Definition all_done (s : state) : Prop := forall k n o, In (k, n) (nodes s) -> In o (n_ops n) -> o_done o = true.
+Definition C06_never_wedged_full : Prop := forall s ro, all_done s -> all_done (step_state s ro).
